@@ -8,6 +8,7 @@ import (
 	"sort"
 	"strings"
 	"sync/atomic"
+	"time"
 
 	"verif/internal/core"
 )
@@ -172,6 +173,15 @@ func runC05(env *core.Env) {
 		stale[r.LogName()+".tmp"] = append([]byte{}, r.Log()...)
 		roots = append(roots, stale)
 	}
+	// legacy-style logs and logs with equal timestamps: compact must not change what they show either. Checked at the root only (observations, claim
+	// order, idempotence, every op of the alphabet with and without a preceding compact); not expanded.
+	noExpand := map[string]bool{}
+	for _, st := range c05MergedRoots() {
+		st["out.txt"] = []byte("r1\n")
+		st["docs/r.md"] = []byte("r2\n")
+		roots = append(roots, st)
+		noExpand[core.CanonLog(st.Log())] = true
+	}
 	maxDepth := 4
 	maxTasks, maxEpics := 2, 2
 	if env.Thorough() {
@@ -293,6 +303,9 @@ func runC05(env *core.Env) {
 		if obs.Fail != "" {
 			return nil
 		}
+		if noExpand[core.CanonLog(rootOfNode(n).Log())] {
+			return nil
+		}
 		if n.Depth >= 1 && core.CanonLog(rootOfNode(n).Log()) != freshKey {
 			return nil // large / legacy / torn roots: every op once (depth 1)
 		}
@@ -311,7 +324,7 @@ func runC05(env *core.Env) {
 		"exhaustive": b.CapHit == "" || b.CapHit == "max_depth", "cap_hit": b.CapHit, "history_depth_completed": b.DepthDone, "roots": len(roots),
 		"states_checked": statesChecked, "commuting_diagram_checks": commuteChecks, "states_by_depth": classes.snapshot(),
 		"unconfirmed_candidates": unconfirmed.Load(),
-		"bound":                  fmt.Sprintf("every history of depth <= %d over the alphabet (new epic/task in 2-6 forms, plan, set title/body/claim/unclaim/state x3-6/epic x3/result x1-2, claim, claim <id>, sequence/rm on task and epic pairs, prune, compact; <=%d tasks, <=%d epics beyond the root's) from the fresh store, and every single op (depth 1) from %d further roots (rich, the repository's legacy sample project, synthetic legacy untitled items, each also with 3 torn tails and with a stale temp file of a crashed rewrite); state key = the whole normalised history (no abstraction)", maxDepth, maxTasks, maxEpics, len(roots)-1),
+		"bound":                  fmt.Sprintf("every history of depth <= %d over the alphabet (new epic/task in 2-6 forms, plan, set title/body/claim/unclaim/state x3-6/epic x3/result x1-2, claim, claim <id>, sequence/rm on task and epic pairs, prune, compact; <=%d tasks, <=%d epics beyond the root's) from the fresh store, and every single op (depth 1) from %d further roots (rich, the repository's legacy sample project, synthetic legacy untitled items, each also with 3 torn tails and with a stale temp file of a crashed rewrite; plus 2 synthesised logs (equal timestamps; epics with legacy state/claim events) checked at the root only); state key = the whole normalised history (no abstraction)", maxDepth, maxTasks, maxEpics, len(roots)-1),
 	}, []string{"ids are scripted (deterministic per path), timestamps are real; same-log comparisons are byte-exact, cross-run comparisons drop timestamps"})
 }
 
@@ -375,4 +388,43 @@ func firstDiffField(a, b core.Obs) string {
 		return "field=item-set"
 	}
 	return "field=list-flags"
+}
+
+// c05MergedRoots: synthesised logs inside C05's quantifier that the CLI of this version does not write by itself: several
+// commands within one clock reading, and a log written by an older version (epics with state and claim events).
+// (Logs merged from two clones - timestamps running against the log order, links after tombstones, CRLF - were tried
+// here and taken out again: C05 quantifies over histories ergo produces, legacy logs and torn tails; see Appendix B.)
+func c05MergedRoots() []core.Store {
+	var out []core.Store
+	base := func() (*SynLog, string, string, string, string) {
+		l := newSynLog()
+		e, a, b, c := core.IDFor(9500), core.IDFor(9501), core.IDFor(9502), core.IDFor(9503)
+		l.Create(SynItem{ID: e, Epic: true, Title: "E"})
+		l.Create(SynItem{ID: a, Title: "A", In: e})
+		l.Create(SynItem{ID: b, Title: "B"})
+		l.Create(SynItem{ID: c, Title: "C"})
+		l.Link(b, a)
+		return l, e, a, b, c
+	}
+	at := func(l *SynLog, h int) string { return l.t.Add(time.Duration(h) * time.Hour).Format(time.RFC3339Nano) }
+	mk := func(l *SynLog) core.Store { return core.Store{".ergo/plans.jsonl": l.Bytes(), ".ergo/lock": {}} }
+	{ // equal timestamps everywhere (two clones writing in the same second)
+		l, _, a, b, c := base()
+		ts := at(l, 1)
+		l.ev("claim", ts, map[string]interface{}{"id": a, "agent_id": "x", "ts": ts})
+		l.ev("state", ts, map[string]interface{}{"id": a, "state": "doing", "ts": ts})
+		l.ev("claim", ts, map[string]interface{}{"id": b, "agent_id": "y", "ts": ts})
+		l.ev("state", ts, map[string]interface{}{"id": b, "state": "blocked", "ts": ts})
+		l.ev("state", ts, map[string]interface{}{"id": c, "state": "done", "ts": ts})
+		l.ev("state", ts, map[string]interface{}{"id": c, "state": "todo", "ts": ts})
+		out = append(out, mk(l))
+	}
+	{ // an older writer: epics with state and claim events
+		l, e, a, _, _ := base()
+		l.Claim(e, "old-agent")
+		l.State(e, "done")
+		l.State(a, "done")
+		out = append(out, mk(l))
+	}
+	return out
 }
